@@ -117,7 +117,7 @@ def gen_line(rng, cfg, tag, kinds=None, ip_pool=None, mac_pool=None, host_pool=N
     """returns a JSON-able line spec {tag, d, slots: [[kind, value, shown]]}"""
     kinds = kinds or ["ip", "ip", "mac", "fqdn", "short", "otherhost", "kw", "pw", "drop", "fill", "fill"]
     slots = []
-    has_pw = False
+    has_pw = 0
     for s in range(nslots or rng.randint(1, 5)):
         k = rng.choice(kinds)
         v = shown = None
@@ -146,10 +146,10 @@ def gen_line(rng, cfg, tag, kinds=None, ip_pool=None, mac_pool=None, host_pool=N
                 # a keyword is a plain substring: also inside a longer word (affixes over letters no keyword or substitute uses)
                 shown = rng.choice(KW_AFFIX) + v + rng.choice(KW_AFFIX)
         elif k == "pw":
-            if has_pw:
+            if has_pw >= 4:
                 k, v, shown = "fill", "pw2", "pw2"
             else:
-                has_pw = True
+                has_pw += 1
                 v = gen_secret(rng, rng.randint(100, 999))
                 sep = rng.choice(PW_SEPS)
                 shown = rng.choice(PW_KEYS) + sep + v + ("\"" if sep.endswith("\"") and rng.random() < 0.7 else "")
